@@ -145,6 +145,9 @@ pub fn run(ctx: &Ctx) -> Report {
 						continue;
 					}
 					r.evaluations += by_family!(f, c09_embedded_case(&ctxt, &mut vs));
+					if t.len() <= 6 {
+						r.evaluations += by_family!(f, c09_reused_handle_embedded_case(&ctxt, &mut vs));
+					}
 					r.transitions += 1;
 					r.distinct_nontrivial += 1;
 					r.traces += 1;
